@@ -39,6 +39,7 @@ FINDINGS = [
  ('F14', 'C11.F9, C08.D6', 'session 1: write k0..k2, close; session 2 (blob 0 re-opened as the active blob): one 6000-byte write fails half-way (RLIMIT_FSIZE, EFBIG); limit restored; write k200..k204 ⇒ Ok; `read(k200)` ⇒ Err: `IoDriver::open` used `append(true)`, so `pwrite` ignored the reserved offset and every later record of that blob lies before the offset its index entry records (`docs/probes/probe_f14.rs`; pointed out by the sub-agent of seed C11r5, exploited by seeds C05r5-b and C08r5-a)', '067f913', 're-opened files are opened for positional writing like fresh ones'),
  ('F15', 'C14.X10', 'write 40 records (bloom filter on); `try_close_active_blob`; wait for `test.0.index`; `BloomProvider::offload_buffer(&mut storage, usize::MAX, 0)`; poll `try_restore_active_blob()` twice and drop it (it is suspended at `read_meta().await` in `IndexStruct::load_in_memory`, which had already switched the state to InMemory); a fresh `try_restore_active_blob()` ⇒ Ok, `write` ⇒ Ok, `close()` ⇒ Err "index file dump failed …: Filter buffer offloaded, can\'t serialize" - the same after a `delete` of a key in the closed blob dropped at its third poll (`docs/probes/probe_f15.rs`). Found by generalising C14.X10 (two fields of an exclusively held value written on the two sides of a suspension point) from guards to `&mut` receivers: the whole crate has exactly this one instance; the sub-agent of seed C14r13 had noticed the symptom independently', 'db45bf7', 'the filter section is read and decoded first; state, filter and bloom offset are switched together after the last suspension point'),
  ('F16', 'C12.S17', 'limit 1000; `write` W1 (2000 B) requests the background sync; `write` W2 (2000 B) has reserved its range (`size.fetch_add`) and is held inside `pwrite64`; the sync runs: `File::fsyncdata` had captured `size` (W2\'s reservation included), `sync_all` returns, `synced_size` = that size; W2\'s bytes are written afterwards and W2 is acknowledged with 0 dirty bytes ⇒ no sync of the blob follows within 3 s although 2069 acknowledged bytes are un-synced, and a later 569-byte W3 triggers none either (`docs/probes/probe_f16.rs`, pwrite64 / fsync interposed in the test binary; fails 3/3 on db45bf7 and in my own run, passes on the repair). Pointed out by the sub-agent of seed C12r14; the rule that now decides it (the value recorded as synced must not be loaded from the counter the appends advance before their write) was written from the finding', '5b3c102', 'completed writes are counted separately (`written_size`, advanced after the positional write); a sync records the value read before it started; `dirty_bytes()` = written - synced'),
+ ('F17', 'C13.L26, C16.W24', 'write 5 records; `try_close_active_blob`; wait for `test.0.index` (`validate_index` ⇒ Ok, `read_index` ⇒ 5 headers); `delete(key 2)` appends a deletion record to the closed blob, reloads its index into memory and requests a deferred dump (30 s); `close()` ⇒ Ok - it dumped only the active blob and stopped the observer, which does not run pending deferred dumps; afterwards `validate_index(test.0.index)` ⇒ Err(IndexBlobSize: header is for a blob of 685 bytes, the blob has 754) and `read_index` ⇒ 5 headers although the blob holds 6 (`docs/probes/probe_f17.rs`). Noticed as a side remark by the sub-agent of seed C16r14; the rule (every return of `Storage::close` is preceded by a loop that dumps the closed blobs, or a callee that does) was written from it', '8b99d48', '`close` dumps every closed blob after the active one, under the same exclusive storage guard; `Blob::dump` is a no-op for an index that is on disk'),
  ('F12', 'C06.K5', '`ignore_corrupted()`, the only blob cut to 50 bytes, no index ⇒ `init()` = Err(Uninitialized) (without the flag: Ok)', '4056f8e', 'create a fresh blob whenever none could be opened'),
 ]
 
